@@ -296,26 +296,26 @@ func (o *overlayer) overlayInterface(base, overlay reflect.Value) error {
 		return fmt.Errorf("error overlaying %s (%s) onto interface(%s); overlay doesn't implement interface-type",
 			overlay.Elem().Kind(), overlay.Elem().Type(), base.Type())
 	case reflect.Array:
+		// the overlay is this stack's private deep copy already: copying it
+		// again would give its pointer elements a second identity, distinct
+		// from the other references to the same pointees.
 		out := reflect.New(overlay.Type())
+		out.Elem().Set(overlay)
 		if !base.IsNil() {
 			if base.Elem().Type() == overlay.Type() {
-				o.dc.deepCopyArray(overlay, out.Elem())
 				base.Set(out.Elem())
 				return nil
 			}
 			if base.Elem().Type() == reflect.PtrTo(overlay.Type()) {
-				o.dc.deepCopyArray(overlay, out.Elem())
 				base.Set(out)
 				return nil
 			}
 		}
 		if overlay.Type().Implements(base.Type()) {
-			o.dc.deepCopyArray(overlay, out.Elem())
 			base.Set(out.Elem())
 			return nil
 		}
 		if reflect.PtrTo(overlay.Type()).Implements(base.Type()) {
-			o.dc.deepCopyArray(overlay, out.Elem())
 			base.Set(out)
 			return nil
 		}
